@@ -126,6 +126,9 @@ func (info FeatureListInfo) encode() []byte {
 		largestOffset = totalSize
 		offs[i] = uint16(totalSize)
 		totalSize += 4 + 2*len(f.Lookups)
+		if len(f.Lookups) > 0xFFFF {
+			panic("too many lookups in feature")
+		}
 	}
 	if largestOffset > 0xFFFF {
 		panic("featureListInfo too large")
